@@ -377,6 +377,12 @@ def run_property(prop, tier, seed):
         print(f'CHECKER-ERROR {e}')
     ev['coverage'].update(extra_info)
     if tier == 'thorough' and not os.environ.get('PYVC_SELFTEST_CHILD'):
+        from .discharge import cross_check_cvc5
+        cc = cross_check_cvc5(obls, seed=seed)
+        ev['coverage']['second_opinion_cvc5_on_a_sample_of_z3_discharged_obligations'] = cc
+        for oid in cc.get('disagree', []):
+            print(f'CHECKER-ERROR solver disagreement on {oid}: z3 unsat, cvc5 sat')
+            extra_errors.append(oid)
         ev['coverage']['self_test_on_stored_seeded_changes'] = self_test(prop, repo.root)
     os.makedirs(os.path.join(OUT, 'evidence'), exist_ok=True)
     json.dump(ev, open(os.path.join(OUT, 'evidence', f'{prop}.json'), 'w'), indent=1, default=str)
